@@ -673,4 +673,23 @@ theorem mulChain_without_regroup : optIs sound ["x"] mulChain (fun a' => match a
     | .binop "*" (.binop "*" (.const (.int 2)) (.ident "x")) (.const (.int 4611686018427387904)) => true
     | _ => false) = true := by decide
 
+/-! ### repair 8aa887a: the purity of a method call comes from its NAME -/
+
+/-- a host registers the method `tickM` as impure -/
+def impureTick : Cfg := { fuel := 30, methNamePure := fun n => n != "tickM" }
+/-- `v -> v.tickM()`: a closure without outer identifiers whose body calls that method -/
+def tickClosure : AST := .clos ["v"] (.method (.ident "v") "tickM" []) [] false ""
+
+/-- pinned: with the name declared impure the closure is NOT a constant (so `(v -> v.tickM())(1)` is not evaluated during
+Generate); before the repair - no method name was impure for `GenerateFunc` - it was -/
+theorem pinned_impure_method_closure_not_constant :
+    isConst staticSig impureTick tickClosure = false ∧ isConst staticSig head tickClosure = true := by
+  constructor <;> decide
+
+/-- the application to a constant is left alone by the whole optimizer -/
+theorem pinned_impure_method_call_not_folded :
+    optIs impureTick ["a"] (.call tickClosure [.const (.int 1)]) (fun a' => match a' with
+      | .call (.clos _ _ _ _ _) [.const (.int 1)] => true
+      | _ => false) = true := by decide
+
 end P2.C02Lang
